@@ -254,9 +254,14 @@ CHECKS["C03"] = {
             "the atoms of the structure. Proved, for every value and every precision: the text the fixed-point formatter produces for a binary64 value is read back by the "
             "decimal parser as exactly r / 10^p with r the value rounded half-to-even to p decimals (within half a unit of the last decimal, exact "
             "for integers), and the digits written for an integer read back as that integer (Proofs/Decimal.v). Proved for the writer model's "
-            "field function: a value that fits its columns is written unchanged and padded to the exact width, an empty value is blank. Structures numbered through the serial-number limits are round-tripped at the loose level.",
+            "field function: a value that fits its columns is written unchanged and padded to the exact width, an empty value is blank. Proved "
+            "about the two models together (Proofs/C03line.v): the coordinate line the writer prints for any atom whose fields fit their columns is "
+            "dispatched to the coordinate lexer with the atom's hetero flag and lexed, without a diagnostic, to exactly the atom's serial number, "
+            "name, alternate location, residue name, chain, residue number, insertion code, element and charge and to its five numbers rounded "
+            "half-to-even to the decimals of their columns. One value just outside its columns is put on a fifth of the structures: a structure "
+            "the validation is silent about is always judged by the round trip. Structures numbered through the serial-number limits are round-tripped at the loose level.",
     "design_ref": "DESIGN.md section 6 C03",
-    "note": "read_pdb (save_pdb s) = round s is not proved as a theorem; both models are tied to the code by correspondence and the specification "
+    "note": "read_pdb (save_pdb s) = round s is proved for the coordinate record, not for the whole file; both models are tied to the code by correspondence and the specification "
             "is evaluated per structure. The clause 'values that fit the documented ranges pass validation' is decided by C18. Trusted: Coq kernel, extraction, harness generator.",
     "technique": "Coq proof of the decimal print / parse round trip and of the field function; writer and reader models with an executable round-trip specification and an independent fixed-column reader; differential correspondence with the crate",
 }
